@@ -4,6 +4,7 @@
   consumed so far.
 -/
 import Masscanned.Proofs.C11.Feed
+import Masscanned.Proofs.RpcFix.SegFirst
 import Masscanned.Thm.C13
 import Masscanned.Thm.C16
 open Masscanned
@@ -405,19 +406,44 @@ theorem rpcSt_append (ovf : Bool) (p d : Bytes) : rpcParse ovf (rpcSt ovf p) d =
   rw [(rpcSt_spec ovf p).1, (rpcSt_spec ovf (p ++ d)).1] at h
   exact h.symm
 
+/-- the parser state STORED after the stream `p`: the initial one once the call has been answered
+    (`*pstate = ProtocolState::new()` in `repl_tcp`) -/
+def rpcStored (ovf : Bool) (p : Bytes) : RpcSt :=
+  if (rpcSt ovf p).state = .done then {} else rpcSt ovf p
+
 theorem rpcRepl_spec (ovf : Bool) (ci : ClientInfo) (ip : Ip) (port : Nat)
     (hip : ci.ipDst = some ip) (hport : ci.portDst = some port) (p d : Bytes) :
-    rpcReplTcp ovf (rpcSt ovf p) ci d = .ok (rpcSt ovf (p ++ d), rpcOut ovf ci (rpcSt ovf (p ++ d))) := by
+    rpcReplTcp ovf (rpcSt ovf p) ci d = .ok (rpcStored ovf (p ++ d), rpcOut ovf ci (rpcSt ovf (p ++ d))) := by
   obtain ⟨resp, hresp⟩ := C16.rpcBuild_total (rpcSt ovf (p ++ d)) ci ip port hip hport
-  unfold rpcOut rpcReplTcp
+  unfold rpcOut rpcReplTcp rpcStored
   rw [rpcSt_append, C16.rpcParse_nil]
   simp only [hresp]
   by_cases hd : (rpcSt ovf (p ++ d)).state = .done
   · simp only [if_pos hd]
   · simp only [if_neg hd]
 
+/-- as long as nothing has been answered the stored state is the parser state on the stream so far -/
+theorem rpcStored_of_silent (ovf : Bool) (ci : ClientInfo) (ip : Ip) (port : Nat)
+    (hip : ci.ipDst = some ip) (hport : ci.portDst = some port) (p : Bytes)
+    (h : rpcOut ovf ci (rpcSt ovf p) = none) : rpcStored ovf p = rpcSt ovf p := by
+  unfold rpcStored
+  by_cases hd : (rpcSt ovf p).state = .done
+  · exfalso
+    obtain ⟨resp, hresp⟩ := C16.rpcBuild_total (rpcSt ovf p) ci ip port hip hport
+    unfold rpcOut rpcReplTcp at h
+    rw [C16.rpcParse_nil] at h
+    simp only [hd, if_true, hresp] at h
+    cases h
+  · rw [if_neg hd]
+
+theorem rpcStored_inv (ovf : Bool) (p : Bytes) : C16.RpcInv (rpcStored ovf p) := by
+  unfold rpcStored
+  split
+  · exact C16.rpcInv_init
+  · exact (rpcSt_spec ovf p).2
+
 def rpcBlock (ovf : Bool) (sg : Bytes) (st : Nat) (x : Bytes) : Tcb :=
-  { smackState := st, protoId := PROTO_RPC_TCP, protoState := some (.rpc (rpcSt ovf (sg ++ x))) }
+  { smackState := st, protoId := PROTO_RPC_TCP, protoState := some (.rpc (rpcStored ovf (sg ++ x))) }
 
 theorem rpc_fresh (cfg : Cfg) (env : Env) (ci : ClientInfo) (hc : HasCookie ci) (ip : Ip) (port : Nat)
     (hip : ci.ipDst = some ip) (hport : ci.portDst = some port) (sg : Bytes) (st : Nat)
@@ -432,14 +458,36 @@ theorem rpc_fresh (cfg : Cfg) (env : Env) (ci : ClientInfo) (hc : HasCookie ci) 
   rw [this]
   rfl
 
+/-- a further segment while nothing has been answered yet -/
 theorem rpc_step (cfg : Cfg) (env : Env) (ci : ClientInfo) (hc : HasCookie ci) (ip : Ip) (port : Nat)
-    (hip : ci.ipDst = some ip) (hport : ci.portDst = some port) (sg : Bytes) (st : Nat) (x d : Bytes) :
+    (hip : ci.ipDst = some ip) (hport : ci.portDst = some port) (sg : Bytes) (st : Nat) (x d : Bytes)
+    (hx : rpcOut cfg.ovf ci (rpcSt cfg.ovf (sg ++ x)) = none) :
     protoRepl cfg env ci (some (rpcBlock cfg.ovf sg st x)) d =
       .ok (ci, some (rpcBlock cfg.ovf sg st (x ++ d)), rpcOut cfg.ovf ci (rpcSt cfg.ovf (sg ++ (x ++ d)))) := by
   rw [protoRepl_identified cfg env ci hc _ (Nat.succ_ne_zero 4)]
   show protoHandle cfg env PROTO_RPC_TCP ci (some (rpcBlock cfg.ovf sg st x)) d = _
-  rw [protoHandle_rpc_cont cfg env ci _ _ rfl, rpcRepl_spec cfg.ovf ci ip port hip hport]
+  rw [protoHandle_rpc_cont cfg env ci _ _ rfl, rpcStored_of_silent cfg.ovf ci ip port hip hport _ hx,
+    rpcRepl_spec cfg.ovf ci ip port hip hport]
   simp only [rpcBlock, List.append_assoc]
+
+/-- invariant of the control block of a flow identified as ONC-RPC over TCP -/
+def RpcBlockInv (t : Tcb) : Prop :=
+  t.protoId = PROTO_RPC_TCP ∧ ∃ s, t.protoState = some (.rpc s) ∧ C16.RpcInv s
+
+theorem rpcBlock_inv (ovf : Bool) (sg : Bytes) (st : Nat) (x : Bytes) : RpcBlockInv (rpcBlock ovf sg st x) :=
+  ⟨rfl, _, rfl, rpcStored_inv ovf _⟩
+
+/-- whatever has been stored, `proto::repl` does not panic on a further segment (the flow stays
+    ONC-RPC, the stored state stays within the invariant of the parser) -/
+theorem rpc_total (cfg : Cfg) (env : Env) (ci : ClientInfo) (hc : HasCookie ci) (ip : Ip) (port : Nat)
+    (hip : ci.ipDst = some ip) (hport : ci.portDst = some port) (t : Tcb) (d : Bytes) (ht : RpcBlockInv t) :
+    ∃ ci' t' r, protoRepl cfg env ci (some t) d = .ok (ci', some t', r) ∧ RpcBlockInv t' := by
+  obtain ⟨hid, s, hs, hinv⟩ := ht
+  obtain ⟨s', r, hr, hinv'⟩ := (C16.rpc_no_panic cfg.ovf ci ip port hip hport).2.2.2.2 s d hinv
+  refine ⟨ci, { t with protoState := some (.rpc s') }, r, ?_, hid, s', rfl, hinv'⟩
+  rw [protoRepl_identified cfg env ci hc t (by rw [hid]; decide), hid,
+    protoHandle_rpc_cont cfg env ci t s hs, hr]
+  simp only [hid]
 
 theorem rpcOut_done (ovf : Bool) (ci : ClientInfo) (s : RpcSt) (h : rpcOut ovf ci s ≠ none) : s.state = .done := by
   unfold rpcOut rpcReplTcp at h
